@@ -6,7 +6,7 @@
 (*                                                                         *)
 (* The action is reached on the entries that pass `pre`, a test            *)
 (*   [p |-> "none"] | [p |-> "name", pat |-> glob] | [p |-> "type", c]     *)
-(* evaluated before it (juxtaposition).                                    *)
+(* evaluated before it (juxtaposition; with neg |-> TRUE: "TEST -o ACTION").*)
 (***************************************************************************)
 EXTENDS FindWalk, Glob
 
@@ -14,10 +14,12 @@ LastSlashA(p) == LastIndexOf(p, SLASH)
 BaseName(p) == SubSeq(p, LastSlashA(p) + 1, Len(p))
 DirName(p) == IF LastSlashA(p) = 0 THEN <<>> ELSE SubSeq(p, 1, LastSlashA(p) - 1)     \* <<>> = find's own working directory
 
-PreHolds(tree, e, pre) ==
+\* pre.neg (optional): the action is the right operand of -o - "TEST -o ACTION" reaches it where TEST is false
+PreTest(tree, e, pre) ==
   IF pre.p = "none" THEN TRUE
   ELSE IF pre.p = "name" THEN GlobMatch(pre.pat, Utf8Decode(NameOf(e.path)), FALSE)     \* patterns and names are compared as characters
   ELSE tree[e.eff].kind = pre.c
+PreHolds(tree, e, pre) == IF "neg" \in DOMAIN pre /\ pre.neg THEN ~PreTest(tree, e, pre) ELSE PreTest(tree, e, pre)
 
 Reached(tree, cfg, roots, pre) == SelectSeq(WalkRoots(tree, cfg, roots).ents, LAMBDA e : PreHolds(tree, e, pre))
 
